@@ -170,6 +170,41 @@ macro_rules! float_len {
 float_len!(float_pref_len1, 1); float_len!(float_pref_len2, 2); float_len!(float_pref_len3, 3); float_len!(float_pref_len4, 4);
 
 // ---------------------------------------------------------------------------------------------
+// C20 "formatting a value and parsing the text with the same value type returns an equal value" (native batches only:
+// std's float/integer formatting is out of CBMC's reach).  input = the 8 bytes of the value, little endian.
+pub fn check_fmt_float(input: &[u8]) {
+    if input.len() != 8 { return; }
+    let v = f64::from_bits(u64::from_le_bytes([input[0], input[1], input[2], input[3], input[4], input[5], input[6], input[7]]));
+    let d = CharacterData::Float(v);
+    let same = |w: f64| (w.is_nan() && v.is_nan()) || w.to_bits() == v.to_bits() || (w == v && v != 0.0);
+    let text = d.to_string();
+    let mut ser = String::new();
+    d.serialize_internal(&mut ser);
+    for t in [&text, &ser] {
+        match CharacterData::parse(t, &CharacterDataSpec::Float, AutosarVersion::LATEST) {
+            Some(CharacterData::Float(w)) => assert!(same(w), "formatting a Float and parsing it again gives a different value"),
+            _ => assert!(false, "the formatted text of a Float does not parse as Float"),
+        }
+        match CharacterData::String(t.clone()).parse_float() {
+            Some(w) => assert!(same(w), "parse_float of the formatted text of a Float gives a different value"),
+            None => assert!(false, "parse_float rejects the formatted text of a Float"),
+        }
+    }
+}
+pub fn check_fmt_uint(input: &[u8]) {
+    if input.len() != 8 { return; }
+    let v = u64::from_le_bytes([input[0], input[1], input[2], input[3], input[4], input[5], input[6], input[7]]);
+    let d = CharacterData::UnsignedInteger(v);
+    let text = d.to_string();
+    let mut ser = String::new();
+    d.serialize_internal(&mut ser);
+    for t in [&text, &ser] {
+        assert!(CharacterData::parse(t, &CharacterDataSpec::UnsignedInteger, AutosarVersion::LATEST) == Some(CharacterData::UnsignedInteger(v)), "formatting an UnsignedInteger and parsing it again gives a different value");
+        assert!(CharacterData::String(t.clone()).parse_integer::<u64>() == Some(v), "parse_integer of the formatted text of an UnsignedInteger gives a different value");
+    }
+}
+
+// ---------------------------------------------------------------------------------------------
 // check_value / check_version_compatibility over kind x spec (complete in kinds, masks, versions, verdicts)
 static mut STUB_VERDICT: bool = false;
 fn stub_check(_s: &[u8]) -> bool { unsafe { STUB_VERDICT } }
@@ -407,6 +442,6 @@ vk_dispatch! {
                 float_pref_len1, float_pref_len2, float_pref_len3, float_pref_len4, check_value_all, version_compat_all,
                 cmp_laws_EEE, cmp_laws_EEU, cmp_laws_EEF, cmp_laws_EES, cmp_laws_EUE, cmp_laws_EUU, cmp_laws_EUF, cmp_laws_EUS, cmp_laws_EFE, cmp_laws_EFU, cmp_laws_EFF, cmp_laws_EFS, cmp_laws_ESE, cmp_laws_ESU, cmp_laws_ESF, cmp_laws_ESS, cmp_laws_UEE, cmp_laws_UEU, cmp_laws_UEF, cmp_laws_UES, cmp_laws_UUE, cmp_laws_UUU, cmp_laws_UUF, cmp_laws_UUS, cmp_laws_UFE, cmp_laws_UFU, cmp_laws_UFF, cmp_laws_UFS, cmp_laws_USE, cmp_laws_USU, cmp_laws_USF, cmp_laws_USS, cmp_laws_FEE, cmp_laws_FEU, cmp_laws_FEF, cmp_laws_FES, cmp_laws_FUE, cmp_laws_FUU, cmp_laws_FUF, cmp_laws_FUS, cmp_laws_FFE, cmp_laws_FFU, cmp_laws_FFF, cmp_laws_FFS, cmp_laws_FSE, cmp_laws_FSU, cmp_laws_FSF, cmp_laws_FSS, cmp_laws_SEE, cmp_laws_SEU, cmp_laws_SEF, cmp_laws_SES, cmp_laws_SUE, cmp_laws_SUU, cmp_laws_SUF, cmp_laws_SUS, cmp_laws_SFE, cmp_laws_SFU, cmp_laws_SFF, cmp_laws_SFS, cmp_laws_SSE, cmp_laws_SSU, cmp_laws_SSF, cmp_laws_SSS, cmp_laws_strings_len1, cmp_laws_strings_len2];
     checks: [int_u8 => check_int_u8, int_i8 => check_int_i8, int_u16 => check_int_u16, int_i16 => check_int_i16, int_u32 => check_int_u32, int_i32 => check_int_i32,
-             int_u64 => check_int_u64, int_i64 => check_int_i64, bool => check_bool, float_prefixed => check_float_prefixed, cmp_strings => check_cmp_strings, cmp_strings_sep => check_cmp_strings_sep];
+             int_u64 => check_int_u64, int_i64 => check_int_i64, bool => check_bool, float_prefixed => check_float_prefixed, cmp_strings => check_cmp_strings, cmp_strings_sep => check_cmp_strings_sep, fmt_float => check_fmt_float, fmt_uint => check_fmt_uint];
 }
 
